@@ -157,7 +157,7 @@ def from_other(mod_fn, name):
 
 
 def s_c03(rng, nval):
-    st = rng.choice(["basic", "shared_input", "enable_shared", "multi_cell"])
+    st = rng.choice(["basic", "shared_input", "enable_shared", "multi_cell", "multi_cell_same_enable", "multi_cell_same_enable"])
     prog, edges = C03.build(rng, st)
     return _mk(prog, "C03:" + st, rng, nval, edges=edges, history=True, nsteps=rng.randint(8, 20))
 
@@ -176,7 +176,7 @@ STRATA = [(s_cse_variants, 5), (s_bundle_cse_variants, 3), (s_folded_consumers, 
           (from_other(C02.s_chain, "C02"), 2), (from_other(C02.s_filter, "C02"), 1), (from_other(C02.s_arith, "C02"), 1),
           (from_other(C06.s_noninline, "C06"), 1), (from_other(C06.s_shared_cmp, "C06"), 1),
           (from_other(C06.s_fanout, "C06"), 1), (from_other(C06.s_chest, "C06"), 1),
-          (s_c03, 3), (s_c05, 3)]
+          (s_c03, 4), (s_c05, 3)]
 
 
 def gen_cases(tier, seed):
